@@ -71,6 +71,7 @@ func verifyFunc(prog *Prog, specs *Specs, fn *ssa.Function, fc *FuncContract, op
 		return un
 	}
 	un.exitState, un.exitRets = out, rets
+	coverFacts := len(un.facts)
 	if fc != nil {
 		sc := un.scopeFor(fr, out, un.entry, rets)
 		n := 0
@@ -100,7 +101,7 @@ func verifyFunc(prog *Prog, specs *Specs, fn *ssa.Function, fc *FuncContract, op
 	un.frameObligations(fr, out)
 	// reachability of the normal exit (vacuity guard): must be SAT
 	un.obls = append(un.obls, &Obl{Name: funcKey(fn) + "/cover:exit-reachable", Kind: "cover", Guard: "true", Goal: out.guard,
-		NFacts: len(un.facts), Fn: funcKey(fn), Cover: true, Text: "requires and assumed contracts are consistent and the exit is reachable"})
+		NFacts: coverFacts, Fn: funcKey(fn), Cover: true, Text: "requires and assumed contracts are consistent and the exit is reachable"})
 	return un
 }
 
